@@ -17,6 +17,16 @@ class CallMixin:
         if isinstance(n.func, ast.Name) and n.func.id == "getattr" and n.func.id not in st.env and len(n.args) in (2, 3):
             yield from self._getattr_call(n, st, fx)
             return
+        if isinstance(n.func, ast.Name) and n.func.id == "setattr" and n.func.id not in st.env and len(n.args) == 3 and not n.keywords:
+            for r, ts, s in self.ev_list(n.args, st, fx):
+                if r == "raise":
+                    yield r, ts, s
+                    continue
+                if not (is_const(ts[1]) and isinstance(ts[1][1], str)):
+                    raise AnalysisError("closed-world audit: setattr() with a name that is not constant at %s:%d" % (fx.func.file, n.lineno))
+                self.store_attr(ts[0], ts[1][1], ts[2], s, fx, n)
+                yield "ok", NONE, s
+            return
         star = any(isinstance(x, ast.Starred) for x in n.args) or any(k.arg is None for k in n.keywords)
         for r, f, s in self.ev(n.func, st, fx):
             if r == "raise":
@@ -68,8 +78,8 @@ class CallMixin:
                         continue
                 yield "ok", ("attr", obj, name[1]), s
             else:
-                self.emit(s, fx, "GETATTR", n, obj=obj, name=None, nameterm=name)
-                yield "ok", ("unk", "getattr"), s
+                raise AnalysisError("closed-world audit: getattr() with a name that is not constant at %s:%d (%s)" % (
+                    fx.func.file, n.lineno, show(name)))
 
     # ------------------------------------------------------------------
     def inline(self, func, selfterm, args, kw, st, fx, node, outer_env=None, bound=True):
